@@ -227,6 +227,17 @@ impl Cause {
     }
 }
 
+/// `Context::stop()` from inside a handler - which then returns at once, or goes on for a few
+/// more polls / some virtual time (the stop request has been accepted when `stop()` returned,
+/// not when the handler ends)
+pub fn ctx_stop_work(g: &mut G) -> Vec<Work> {
+    match g.below(4) {
+        0 => vec![Work::CtxStop, Work::Yield(g.range(1, 2) as u32)],
+        1 => vec![Work::CtxStop, Work::Sleep(g.range(1, 6))],
+        _ => vec![Work::CtxStop],
+    }
+}
+
 /// Plant one termination cause at a random position of the family's programs.
 pub fn apply_cause(g: &mut G, fam: &mut Fam, cause: Cause) {
     match cause {
@@ -256,9 +267,9 @@ pub fn apply_cause(g: &mut G, fam: &mut Fam, cause: Cause) {
             let at = fam.pos(g, 0);
             let id = g.id();
             let op = if g.chance(1, 2) {
-                Op::Send { h: PRIMARY, id, work: vec![Work::CtxStop] }
+                Op::Send { h: PRIMARY, id, work: ctx_stop_work(g) }
             } else {
-                Op::Call { h: PRIMARY, id, work: vec![Work::CtxStop] }
+                Op::Call { h: PRIMARY, id, work: ctx_stop_work(g) }
             };
             fam.insert(0, at, vec![op]);
         }
